@@ -841,11 +841,15 @@ E3_XY = {
         "{% if x == y %}A{% elsif x %}B{% elsif y %}C{% endif %}",
         "{% if x %}{% if y %}A{% else %}B{% endif %}{% else %}{% unless y %}C{% else %}D{% endunless %}{% endif %}",
         "{% if x %}{% else %}{% endif %}|{% if y %}{% endif %}", "{% if x and y %}{{ x }}{% elsif x or y %}{{ y }}{% else %}-{% endif %}",
-        "{% if x != 1 and y contains 'a' %}A{% else %}B{% endif %}", "{% if x < y %}lt{% elsif x >= y %}ge{% endif %}"),
+        "{% if x != 1 and y contains 'a' %}A{% else %}B{% endif %}", "{% if x < y %}lt{% elsif x >= y %}ge{% endif %}",
+        # branches with no nodes at all still decide which later branch runs
+        "{% if x %}A{% elsif y %}{% else %}D{% endif %}", "{% if x %}A{% elsif y -%}   {%- elsif x == y %}C{% else %}D{% endif %}",
+        "{% if x %}{% elsif y %}{% elsif true %}E{% endif %}|{% if x %}{% elsif y %}Y{% else %}{% endif %}"),
     "unless": (
         "{% unless x %}A{% endunless %}", "{% unless x %}A{% else %}B{% endunless %}", "{% unless x %}A{% elsif y %}B{% else %}C{% endunless %}",
         "{% unless x == y %}{{ x }}{% endunless %}", "{% unless x or y %}A{% endunless %}",
-        "{% unless x %}{% unless y %}A{% endunless %}{% else %}{% if y %}B{% endif %}{% endunless %}"),
+        "{% unless x %}{% unless y %}A{% endunless %}{% else %}{% if y %}B{% endif %}{% endunless %}",
+        "{% unless x %}A{% elsif y %}{% else %}D{% endunless %}", "{% unless x %}{% elsif y -%} {%- else %}D{% endunless %}"),
     "case": (
         "{% case x %}{% when 1 %}A{% when 'a', y %}B{% when 2 or 3 %}C{% else %}D{% endcase %}", "{% case x %}{% when y %}A{% endcase %}",
         "{% case x %}{% else %}C{% endcase %}", "{% case x %}{% when 1, 1, y %}A{% else %}B{% endcase %}",
